@@ -260,10 +260,13 @@ type havocEv struct {
 }
 
 func (ev havocEv) affects(key string) bool {
+	if keptKey(key, ev.except) {
+		return false
+	}
 	if ev.all {
 		return true
 	}
-	return !strings.HasPrefix(key, "G:") && !keptKey(key, ev.except)
+	return !strings.HasPrefix(key, "G:")
 }
 
 // genOf: the generation naming the not-yet-materialized heap key in st.
@@ -476,6 +479,25 @@ func (vc *VC) mergeStates(ins []*State) *State {
 	out.defers = append([]deferRec(nil), ins[0].defers...)
 	for _, s := range ins[1:] {
 		if len(s.defers) != len(out.defers) {
+			// conditional defers: keep the common prefix if every extra deferred call is an effect-free library call
+			// (e.g. defer t.Stop() on a time.Timer inside a branch); anything else is outside the subset
+			n := 0
+			for n < len(s.defers) && n < len(out.defers) && s.defers[n].instr == out.defers[n].instr {
+				n++
+			}
+			ok := true
+			for _, lst := range [][]deferRec{s.defers[n:], out.defers[n:]} {
+				for _, d := range lst {
+					df, isDefer := d.instr.(*ssa.Defer)
+					if !isDefer || df.Call.StaticCallee() == nil || !vc.eng.effectFree(fnKey(df.Call.StaticCallee())) {
+						ok = false
+					}
+				}
+			}
+			if ok {
+				out.defers = out.defers[:n:n]
+				continue
+			}
 			vc.unsupported("conditional defer (defer stacks differ at join)")
 			if len(s.defers) > len(out.defers) {
 				out.defers = append([]deferRec(nil), s.defers...)
